@@ -1,6 +1,7 @@
 //! Generators, censuses, mutators, corpora and the event log. Links no walrus code.
 pub mod census;
 pub mod corpus;
+pub mod dwarf;
 pub mod gen;
 pub mod log;
 pub mod mspec;
